@@ -1,7 +1,7 @@
 //! C20 — the command-line tool behaves exactly like the library on the same file.
 //! Differential at process level: the `rrss` binary built from /repo (debug build for the checked
 //! configuration, release build for the release configuration) against the library's cli::* functions.
-use super::{c08, c10, c13, corpus};
+use super::{c08, c09, c10, c13, c19, corpus};
 use crate::engine::space::Space;
 use crate::engine::*;
 use serde_json::{json, Value};
@@ -12,7 +12,7 @@ use std::rc::Rc;
 pub const DEF: PropDef = PropDef {
     id: "C20",
     level: "exploration",
-    rule: "a corpus of programs (succeeding, failing at parse time on various lines, failing at run time after k lines of output, failing with messages that quote values of 60..5000 characters / elements (ASCII and multi-byte), reading input, printing multi-line strings, building dictionaries) x 7 standard-input contents (empty, one line, several lines, no final newline, non-ASCII, a line that is not valid UTF-8, leading blank lines) x sub-commands exec (separate pipes and stdout+stderr merged into one pipe), lint, parse; plus 10 file forms (missing final newline, CRLF, byte-order mark, multi-line strings, 3000 lines (more output than a pipe buffer) with and without a final runtime error) under 12 file names (blanks, non-ASCII, NBSP, tab, apostrophe, no / double / upper-case extension, hidden, nested directories, a directory named like an option) x 4 sub-command modes; plus usage errors (unknown sub-command, missing argument, missing file, directory as file) and dictionary programs run as separate processes under 8 hash seeds (LD_PRELOAD getrandom shim); oracle (independent of src/cli): stdout equals what frontend::parser::parse + exec::exec_using write for the same text and input; `parse` prints the pretty Debug tree of the library's parse; `lint` prints one line per library diagnostic (its line and issue) followed by one tab-indented line per suggestion and nothing else; errors go to stderr as `<prefix naming parse/runtime>: <library message>`, on the merged pipe the error line comes after all output, usage errors exit non-zero; non-trivial = every case (a process is spawned and compared); distinct = distinct (program, input, mode)",
+    rule: "a corpus of programs (succeeding, failing at parse time on various lines, failing at run time after k lines of output, failing with messages that quote values of 60..5000 characters / elements (ASCII and multi-byte), reading input, printing multi-line strings, building dictionaries, stray break / continue / return at top level followed by further blocks, several lint diagnostics per line in both name orders) x 7 standard-input contents (empty, one line, several lines, no final newline, non-ASCII, a line that is not valid UTF-8, leading blank lines) x sub-commands exec (separate pipes and stdout+stderr merged into one pipe), lint, parse; plus 10 file forms (missing final newline, CRLF, byte-order mark, multi-line strings, 3000 lines (more output than a pipe buffer) with and without a final runtime error) under 12 file names (blanks, non-ASCII, NBSP, tab, apostrophe, no / double / upper-case extension, hidden, nested directories, a directory named like an option) x 4 sub-command modes; plus usage errors (unknown sub-command, missing argument, missing file, directory as file) and dictionary programs run as separate processes under 8 hash seeds (LD_PRELOAD getrandom shim); oracle (independent of src/cli): stdout equals what frontend::parser::parse + exec::exec_using write for the same text and input; `parse` prints the pretty Debug tree of the library's parse; `lint` prints one line per library diagnostic (its line and issue) followed by one tab-indented line per suggestion and nothing else; errors go to stderr as `<prefix naming parse/runtime>: <library message>`, on the merged pipe the error line comes after all output, usage errors exit non-zero; non-trivial = every case (a process is spawned and compared); distinct = distinct (program, input, mode)",
     assumptions: &["NO_COLOR=1 for both sides", "exit status after parse / runtime errors and with no arguments at all is observed and reported, not judged (the property does not state it)", "the binaries are rebuilt from /repo by ./check before the run"],
     build,
     exhaustive: true,
@@ -96,6 +96,24 @@ fn corpus_programs(tier: Tier) -> (Vec<String>, usize) {
         for form in ["put E into x\n", "let x be E\nsay x\n", "x is E\n", "rock x with E\nsay x at 0\n", "if true\nput E into the zed\n\nput E into Zed Yod\nput E into it\n"] {
             v.push(form.replace('E', rhs));
         }
+    }
+    // stray control flow at top level followed by more blocks (only binary vs library is judged)
+    {
+        let stray: Space<&'static str> = Space::of(c09::STRAY.to_vec());
+        let first: Space<&'static str> = Space::of(c09::STRAY[..5].to_vec());
+        let seqs = if tier == Tier::Thorough { stray.seq_range(1, 2) } else { Space::union(vec![stray.seq_range(1, 1), first.seq_range(2, 2)]) };
+        for p in seqs.iter() {
+            v.push(format!("put true into vb\nsay 0\n{}say 8\n\nsay 9\nsay 10\n", p.concat()));
+        }
+    }
+    // several diagnostics per line and per pass, in both name orders
+    for t in c19::TEMPLATES.iter().filter(|t| !t.contains("while ") && !t.contains("until ")) {
+        for f in [[0usize, 0, 3, 3], [3, 3, 0, 0], [0, 3, 0, 3], [3, 0, 0, 3], [0, 0, 0, 0], [2, 2, 3, 3], [3, 3, 2, 2]] {
+            v.push(c19::fill(t, &f));
+        }
+    }
+    for s in ["put zed plus zed plus abe plus abe into qux\n", "put abe plus abe plus zed plus zed into qux\nput 5 into qux\nput 4 into abe\n", "let x be 5\nsay x plus x, x\nrock y with 1\nrock y with y\n"] {
+        v.push(s.to_string());
     }
     // say / listen programs
     let s: Space<&'static str> = Space::of(c08::STMTS.to_vec());
